@@ -3,6 +3,7 @@ package main
 import (
 	"bytes"
 	"fmt"
+	"os"
 	"strings"
 
 	"verifmc/core"
@@ -97,8 +98,11 @@ func cookieOf(resp []byte) string {
 var (
 	historyAlphabet []*letter
 	probes          []*letter
-	// the first mainHist letters / mainProbes probes form the history x probe product; the letters
-	// after them belong to the derived-value family (derived.go), which enumerates its own pairs
+	// the first coreHist letters / coreProbes probes form the history x probe product (every depth);
+	// the letters up to mainHist / mainProbes are the wide family (wide.go: histories of at most one
+	// request); the letters after them belong to the derived-value family (derived.go), which
+	// enumerates its own pairs
+	coreHist, coreProbes int
 	mainHist, mainProbes int
 )
 
@@ -128,8 +132,8 @@ func buildAlphabets() {
 		{Name: "ck-keyonly", Raw: flashReq("/land", keyOnly), Note: "2 maps with only `key`"},
 		{Name: "ck-trunc", Raw: flashReq("/land", trunc), Note: "array of 2, second element truncated"},
 		{Name: "ck-arr16", Raw: flashReq("/land", "\xdc\x21\x21\x80\x80"), Note: "array16 header announcing 8481 elements, body of 2"},
-		{Name: "ck-arr16-nul", Raw: flashReq("/land", "\xdc\x00\x02\x80\x80"), Note: "array16 header for 2 (NUL byte: 400)"},
-		{Name: "ck-arr32-nul", Raw: flashReq("/land", "\xdd\x00\x00\x00\x02\x80\x80"), Note: "array32 header for 2 (NUL byte: 400)"},
+		// (ck-arr16-nul / ck-arr32-nul — refused by fasthttp with 400 before fiber sees the cookie, exactly like
+		// follow-input — are letters of the wide family: histories of one request only, see wide.go)
 		{Name: "viewbind", Raw: req("GET", "/vb", nil, ""), Note: "ViewBind + Render"},
 		{Name: "locals", Raw: req("GET", "/loc", nil, ""), Note: "Locals (string and typed key)"},
 		{Name: "bind-json", Raw: req("POST", "/bind/json", []string{"Content-Type", "application/json"}, `{"name":"jalice","age":7,"tags":["x","y"],"city":"jtown"}`), Note: "JSON body bound with auto handling"},
@@ -175,6 +179,11 @@ func buildAlphabets() {
 		if v.Name == "sf-plain" {
 			probes = append(probes, &letter{Name: "sf-plain-gz", Raw: req("GET", "/sf/"+v.Name, hdrs[2:], ""), Note: "SendFile: " + v.Note + ", request without Range", App: true})
 		}
+	}
+	coreHist, coreProbes = len(historyAlphabet), len(probes)
+	if os.Getenv("C05_NO_WIDE") == "" { // development aid: cost of the product alone
+		historyAlphabet = append(historyAlphabet, wideLetters()...)
+		probes = append(probes, wideProbeLetters()...)
 	}
 	mainHist, mainProbes = len(historyAlphabet), len(probes)
 	buildDerived()
